@@ -1,3 +1,359 @@
-/-! placeholder kept for the import graph: the option-state printer lives in `Driver/C16.lean` -/
+/-!
+# Model of the command-line tokenizer (C16): go-getoptions v0.28 as `obioptions.GenerateOptionParser` uses it
+
+Anchors: `pkg/obioptions/options.go` (`GenerateOptionParser`: `SetMode(Bundling)`,
+`SetUnknownMode(Fail)`, the common options, `help` / `version` / error → `os.Exit`), the option
+declarations of `obiconvert/options.go`, `obigrep/options.go`, `obiannotate/options.go`,
+`obidistribute/options.go`, and, in the module cache, `go-getoptions@v0.28.0` `isoption.go`
+(`isOption`), `api.go` (`parseCLIArgs`, `getAliasNameFromPartialEntry`), `user.go` (`Parse`),
+`internal/option/option.go` (`Save`, `CheckRequired`).
+
+The declarations (`Decl`) are a parameter of the tokenizer: the theorems hold for every table; the
+three tables of this file are the ones of obigrep / obiannotate / obidistribute.
+
+Outside the model: words holding a line feed (the regular expression of `isOption` does not match
+them), the exotic spellings `strconv.ParseFloat` accepts (`inf`, hexadecimal floats, `_`), environment
+variables (`OBIMAXCPU`, …), shell completion (`COMP_LINE`).
+-/
 namespace ObiVerif.Getopt
+
+inductive Kind where
+  | flag | int | float | str | strs | ints | map
+  deriving DecidableEq, Repr, Inhabited
+
+structure Decl where
+  name : String
+  aliases : List String := []
+  kind : Kind
+  /-- `options.Required(msg)` -/
+  required : Option String := none
+  deriving Repr, Inhabited
+
+def Decl.keys (d : Decl) : List String := d.name :: d.aliases
+
+/-- what `isOption(word, Bundling, false)` sees in one word -/
+inductive Word where
+  /-- `--`: end of the options -/
+  | term
+  /-- a lonesome `-`: an option called `-` -/
+  | dash
+  /-- `--name` / `--name=arg` (an empty `arg` is no argument) -/
+  | long (name : String) (arg : Option String)
+  /-- `-abc` / `-abc=arg`: one option per letter, the argument goes to the last one -/
+  | short (letters : List Char) (arg : Option String)
+  | text
+  deriving DecidableEq, Repr, Inhabited
+
+/-- the part after the option name: `=arg` gives `arg`, an empty one counts for nothing -/
+def argOf (after : List Char) : Option String :=
+  match after with
+  | '=' :: a => if a.isEmpty then none else some (String.ofList a)
+  | _ => none
+
+/-- `isOptionRegex = ^(--?)([^=]+)(.*?)$` on a word without line feed -/
+def classify (w : String) : Word :=
+  if w = "--" then .term
+  else if w = "-" then .dash
+  else
+    match w.toList with
+    | '-' :: '-' :: c :: rest =>
+      if c ≠ '=' then
+        let body := c :: rest
+        .long (String.ofList (body.takeWhile (· ≠ '='))) (argOf (body.dropWhile (· ≠ '=')))
+      else
+        -- `--=x`: the regular expression backtracks to the short option `-`
+        .short ['-'] (argOf (c :: rest))
+    | '-' :: c :: rest =>
+      if c ≠ '=' then
+        let body := c :: rest
+        .short (body.takeWhile (· ≠ '=')) (argOf (body.dropWhile (· ≠ '=')))
+      else .text
+    | _ => .text
+
+/-- `isOption(word)` as a Boolean: does the word look like an option (`--` does not) -/
+def looksLikeOption (w : String) : Bool :=
+  match classify w with
+  | .term => false
+  | .text => false
+  | _ => true
+
+/-- `getAliasNameFromPartialEntry`: the entry itself when it is a declared name or alias, else every
+declared name or alias it is a prefix of -/
+def matchesOf (decls : List Decl) (entry : String) : List String :=
+  let keys := decls.flatMap Decl.keys
+  if keys.contains entry then [entry] else keys.filter fun k => entry.toList.isPrefixOf k.toList
+
+def declOf (decls : List Decl) (key : String) : Option Decl := decls.find? fun d => d.keys.contains key
+
+inductive Err where
+  | ambiguous (word : String)
+  | missing (alias : String)
+  | dashArg (alias : String)
+  | badInt (alias val : String)
+  | badFloat (alias val : String)
+  | notKV (alias : String)
+  | unknown (name : String)
+  | required (msg : String)
+  deriving DecidableEq, Repr, Inhabited
+
+/-- one assignment: the option (by its declared name), and the value saved (`"1"` / `"0"` for a flag) -/
+structure Event where
+  name : String
+  value : String
+  deriving DecidableEq, Repr, Inhabited
+
+structure St where
+  events : List Event := []
+  unknown : List String := []
+  text : List String := []
+  deriving Repr, Inhabited
+
+/-- `strconv.Atoi`: an optional sign, decimal digits, the value fitting an `int` (64 bits) -/
+def atoi? (s : String) : Option Int :=
+  let digs : List Char → Option Nat := fun l =>
+    if l.isEmpty || !l.all Char.isDigit then none
+    else some (l.foldl (fun (n : Nat) c => n * 10 + (c.toNat - 48)) (0 : Nat))
+  match s.toList with
+  | '-' :: l => (digs l).bind fun n => if n ≤ 9223372036854775808 then some (-(n : Int)) else none
+  | '+' :: l => (digs l).bind fun n => if n ≤ 9223372036854775807 then some (n : Int) else none
+  | l => (digs l).bind fun n => if n ≤ 9223372036854775807 then some (n : Int) else none
+
+/-- the plain decimal spellings `strconv.ParseFloat` accepts: `[+-]d*[.d*][e[+-]d+]` with a digit -/
+def floatOK (s : String) : Bool :=
+  let l := match s.toList with
+    | '-' :: t => t
+    | '+' :: t => t
+    | t => t
+  let ip := l.takeWhile Char.isDigit
+  let r := l.dropWhile Char.isDigit
+  let (fp, r, dot) := match r with
+    | '.' :: t => (t.takeWhile Char.isDigit, t.dropWhile Char.isDigit, true)
+    | t => ([], t, false)
+  let _ := dot
+  (!ip.isEmpty || !fp.isEmpty) &&
+  (match r with
+   | [] => true
+   | e :: t =>
+     (e = 'e' || e = 'E') &&
+     (let t := match t with
+        | '-' :: u => u
+        | '+' :: u => u
+        | u => u
+      !t.isEmpty && t.all Char.isDigit))
+
+/-- first `..` of a word: what is before, what is after -/
+def splitDots : List Char → Option (List Char × List Char)
+  | [] => none
+  | '.' :: '.' :: t => some ([], t)
+  | c :: t => (splitDots t).map fun p => (c :: p.1, p.2)
+
+/-- `Option.Save(value)` -/
+def save (d : Decl) (alias val : String) : Except Err (List Event) :=
+  match d.kind with
+  | .flag => .ok [⟨d.name, if val = "false" then "0" else "1"⟩]
+  | .str | .strs => .ok [⟨d.name, val⟩]
+  | .int =>
+    match atoi? val with
+    | some n => .ok [⟨d.name, toString n⟩]
+    | none => .error (.badInt alias val)
+  | .ints =>
+    match splitDots val.toList with
+    | some (a, b) =>
+      match atoi? (String.ofList a), atoi? (String.ofList b) with
+      | some x, some y =>
+        if x < y then .ok ((List.range (y - x + 1).toNat).map fun (i : Nat) => ⟨d.name, toString (x + (i : Int))⟩)
+        else .error (.badInt alias val)
+      | _, _ => .error (.badInt alias val)
+    | none =>
+      match atoi? val with
+      | some n => .ok [⟨d.name, toString n⟩]
+      | none => .error (.badInt alias val)
+  | .float => if floatOK val then .ok [⟨d.name, val⟩] else .error (.badFloat alias val)
+  | .map =>
+    match val.splitOn "=" with
+    | k :: v :: _ => .ok [⟨d.name, k ++ "=" ++ v⟩]
+    | _ => .error (.notKV alias)
+
+/-- `Option.Save()` without argument -/
+def saveNone (d : Decl) : List Event :=
+  match d.kind with
+  | .flag => [⟨d.name, "1"⟩]
+  | _ => []
+
+def St.add (st : St) (es : List Event) : St := { st with events := st.events ++ es }
+
+/-- one option of a word (`p.Option`, `p.Args`) handled by the `for _, p := range optPair` loop; `rest`
+= the words that follow; returns the words left -/
+def handlePair (decls : List Decl) (word entry : String) (arg : Option String) (rest : List String) (st : St) :
+    Except (Err × St) (St × List String) :=
+  match matchesOf decls entry with
+  | [] => .ok ({ st with unknown := st.unknown ++ [entry] }, rest)
+  | [key] =>
+    match declOf decls key with
+    | none => .ok (st, rest)  -- cannot happen: `key` is a declared key
+    | some d =>
+      match arg with
+      | some a =>
+        match save d key a with
+        | .ok es => .ok (st.add es, rest)
+        | .error e => .error (e, st)
+      | none =>
+        let st := st.add (saveNone d)
+        if d.kind = .flag then .ok (st, rest)
+        else
+          match rest with
+          | [] => .error (.missing key, st)
+          | v :: rest' =>
+            if looksLikeOption v then .error (.dashArg key, st)
+            else
+              match save d key v with
+              | .ok es => .ok (st.add es, rest')
+              | .error e => .error (e, st)
+  | _ => .error (.ambiguous word, st)
+
+def handlePairs (decls : List Decl) (word : String) : List (String × Option String) → List String → St →
+    Except (Err × St) (St × List String)
+  | [], rest, st => .ok (st, rest)
+  | (entry, arg) :: ps, rest, st =>
+    match handlePair decls word entry arg rest st with
+    | .ok (st', rest') => handlePairs decls word ps rest' st'
+    | .error e => .error e
+
+/-- the `(option, args)` pairs of a word -/
+def pairsOf (w : Word) : List (String × Option String) :=
+  match w with
+  | .dash => [("-", none)]
+  | .long n a => [(n, a)]
+  | .short ls a =>
+    match ls.reverse with
+    | [] => []
+    | last :: revInit => (revInit.reverse.map fun c => (String.singleton c, none)) ++ [(String.singleton last, a)]
+  | _ => []
+
+/-- `parseCLIArgs` (normal parsing): `fuel` ≥ number of words -/
+def loop (decls : List Decl) : Nat → List String → St → Except (Err × St) St
+  | 0, _, st => .ok st
+  | _, [], st => .ok st
+  | fuel + 1, w :: rest, st =>
+    match classify w with
+    | .term => .ok { st with text := st.text ++ rest }
+    | .text => loop decls fuel rest { st with text := st.text ++ [w] }
+    | cw =>
+      match handlePairs decls w (pairsOf cw) rest st with
+      | .ok (st', rest') => loop decls fuel rest' st'
+      | .error e => .error e
+
+def parse (decls : List Decl) (argv : List String) : Except (Err × St) St :=
+  loop decls (argv.length + 1) argv {}
+
+def called (st : St) (name : String) : Bool := st.events.any fun e => e.name = name
+
+/-- how the process ends (`GenerateOptionParser`): `help` → usage and exit 1, `version` → exit 0, an
+error → message and exit 1 -/
+inductive Outcome where
+  | ok (st : St)
+  | help
+  | version
+  | error (e : Err)
+  deriving Repr, Inhabited
+
+def outcome (decls : List Decl) (argv : List String) : Outcome :=
+  match parse decls argv with
+  | .error (e, st) =>
+    if called st "help" then .help else if called st "version" then .version else .error e
+  | .ok st =>
+    if called st "help" then .help
+    else if called st "version" then .version
+    else
+      match decls.find? fun d => d.required.isSome && !called st d.name with
+      | some d => .error (.required (d.required.getD ""))
+      | none =>
+        match st.unknown with
+        | u :: _ => .error (.unknown u)
+        | [] => .ok st
+
+/-- exit status of the command -/
+def Outcome.exit : Outcome → Nat
+  | .ok _ => 0
+  | .version => 0
+  | _ => 1
+
+/-! ## the declarations -/
+
+def commonDecls : List Decl := [
+  { name := "help", aliases := ["h", "?"], kind := .flag },
+  { name := "version", kind := .flag }, { name := "debug", kind := .flag }, { name := "pprof", kind := .flag },
+  { name := "max-cpu", kind := .int }, { name := "force-one-cpu", kind := .flag },
+  { name := "pprof-mutex", kind := .int }, { name := "pprof-goroutine", kind := .int },
+  { name := "batch-size", kind := .int }, { name := "solexa", kind := .flag }]
+
+def inputDecls : List Decl := [
+  { name := "input-json-header", kind := .flag }, { name := "input-OBI-header", kind := .flag },
+  { name := "ecopcr", kind := .flag }, { name := "embl", kind := .flag }, { name := "genbank", kind := .flag },
+  { name := "fastq", kind := .flag }, { name := "fasta", kind := .flag }, { name := "no-order", kind := .flag }]
+
+def outputDecls : List Decl := [
+  { name := "fasta-output", kind := .flag }, { name := "fastq-output", kind := .flag },
+  { name := "json-output", kind := .flag }, { name := "output-json-header", kind := .flag },
+  { name := "output-OBI-header", aliases := ["O"], kind := .flag },
+  { name := "no-progressbar", kind := .flag }, { name := "compress", aliases := ["Z"], kind := .flag },
+  { name := "skip-empty", kind := .flag }, { name := "out", aliases := ["o"], kind := .str }]
+
+def pairedDecls : List Decl := [{ name := "paired-with", kind := .str }]
+
+def selectionDecls : List Decl := [
+  { name := "taxdump", aliases := ["t"], kind := .str },
+  { name := "restrict-to-taxon", aliases := ["r"], kind := .strs },
+  { name := "ignore-taxon", aliases := ["i"], kind := .ints },
+  { name := "require-rank", kind := .strs },
+  { name := "save-discarded", kind := .str }, { name := "id-list", kind := .str },
+  { name := "inverse-match", aliases := ["v"], kind := .flag },
+  { name := "min-length", aliases := ["l"], kind := .int }, { name := "max-length", aliases := ["L"], kind := .int },
+  { name := "min-count", aliases := ["c"], kind := .int }, { name := "max-count", aliases := ["C"], kind := .int },
+  { name := "predicate", aliases := ["p"], kind := .strs }, { name := "sequence", aliases := ["s"], kind := .strs },
+  { name := "definition", aliases := ["D"], kind := .strs }, { name := "identifier", aliases := ["I"], kind := .strs },
+  { name := "has-attribute", aliases := ["A"], kind := .strs }, { name := "attribute", aliases := ["a"], kind := .map },
+  { name := "paired-mode", kind := .str }, { name := "approx-pattern", kind := .strs },
+  { name := "pattern-error", kind := .int }, { name := "allows-indels", kind := .flag },
+  { name := "only-forward", kind := .flag }]
+
+def annotationDecls : List Decl := [
+  { name := "clear", kind := .flag }, { name := "length", kind := .flag }, { name := "aho-corasick", kind := .str },
+  { name := "pattern", kind := .str }, { name := "pattern-name", kind := .str }, { name := "add-lca-in", kind := .str },
+  { name := "set-identifier", kind := .str }, { name := "lca-error", kind := .float }, { name := "cut", kind := .str },
+  { name := "set-tag", aliases := ["S"], kind := .map }, { name := "rename-tag", aliases := ["R"], kind := .map },
+  { name := "delete-tag", kind := .strs }, { name := "with-taxon-at-rank", kind := .strs },
+  { name := "taxonomic-path", kind := .flag }, { name := "taxonomic-rank", kind := .flag },
+  { name := "scientific-name", kind := .flag }, { name := "keep", aliases := ["k"], kind := .strs }]
+
+def distributeDecls : List Decl := [
+  { name := "pattern", aliases := ["p"], kind := .str, required := some "You must provide at pattern for the file names " },
+  { name := "classifier", aliases := ["c"], kind := .str }, { name := "directory", aliases := ["d"], kind := .str },
+  { name := "na-value", kind := .str }, { name := "batches", aliases := ["n"], kind := .int },
+  { name := "append", aliases := ["A"], kind := .flag }, { name := "hash", aliases := ["H"], kind := .int }]
+
+def grepDecls : List Decl := commonDecls ++ inputDecls ++ outputDecls ++ pairedDecls ++ selectionDecls
+def annotDecls : List Decl := grepDecls ++ annotationDecls
+def distDecls : List Decl := commonDecls ++ inputDecls ++ outputDecls ++ distributeDecls
+
+/-! ## the option globals after a successful parse -/
+
+def lastValue (st : St) (name dflt : String) : String :=
+  match (st.events.filter fun e => e.name = name).getLast? with
+  | some e => e.value
+  | none => dflt
+
+def allValues (st : St) (name : String) : List String := (st.events.filter fun e => e.name = name).map (·.value)
+
+/-- Go map assignment, the association list kept sorted by key -/
+def mapPut (k v : String) : List (String × String) → List (String × String)
+  | [] => [(k, v)]
+  | x :: xs => if k = x.1 then (k, v) :: xs else if k < x.1 then (k, v) :: x :: xs else x :: mapPut k v xs
+
+def mapValues (st : St) (name : String) : List (String × String) :=
+  (allValues st name).foldl (fun m kv =>
+    match kv.splitOn "=" with
+    | k :: v :: _ => mapPut k v m
+    | _ => m) []
+
 end ObiVerif.Getopt
